@@ -154,9 +154,12 @@ class QueryFamily:
             term_keys(t, used)
         d = dict(case)
         d['binders'] = [b for b in case['binders'] if b[1] in used]
+        # (a universal variable whose for_all was shrunk away is an ordinary variable of what is left)
+        bound = {b[1] for b in d['binders']} | forall_keys(d['cond'])
+        d['binders'] += [['var', k] for k, _ in case['doms'] if k in used and k not in bound]
         # (a concatenation ranges over its own inner variable: its domain stays)
         inner = {b[2] for b in d['binders'] if b[0] in ('concat', 'concatflat')}
-        d['doms'] = [x for x in case['doms'] if x[0] in used or x[0] in inner]
+        d['doms'] = [x for x in case['doms'] if x[0] in used or x[0] in inner or x[0] in forall_keys(d['cond'])]
         if case.get('form') == 'entity' and len(d['sel']) != 1:
             d['form'] = 'set_of'
         return d
@@ -231,6 +234,21 @@ def repeated_flat_element(case):
                 if isinstance(v, list) and len(set(map(str, v))) < len(v):
                     return True
     return False
+
+
+def forall_keys(c):
+    if c is None:
+        return set()
+    k = c[0]
+    if k in ('and', 'or'):
+        return forall_keys(c[1]) | forall_keys(c[2])
+    if k == 'not':
+        return forall_keys(c[1])
+    if k == 'forall':
+        return {c[1]} | forall_keys(c[2])
+    if k == 'sub':
+        return forall_keys(c[2])
+    return set()
 
 
 def subconds(c):
